@@ -36,6 +36,7 @@ def guard(e):
 
 
 QUERY_TIMEOUT_MS = 120000
+FLOAT_AS_DECIMAL = False
 
 
 class Stats:
@@ -232,7 +233,9 @@ def rv(v):
     if isinstance(v, int):
         return z3.RealVal(v)
     if isinstance(v, float):
-        f = Fraction(v)
+        # FLOAT_AS_DECIMAL: read a float as its shortest decimal literal (26.81 -> 2681/100), i.e. the constant the
+        # source text states, instead of the exact value of the nearest double (closed-form checks over the reals)
+        f = Fraction(repr(v)) if FLOAT_AS_DECIMAL else Fraction(v)
         return z3.RealVal(f.numerator) / z3.RealVal(f.denominator) if f.denominator != 1 else z3.RealVal(f.numerator)
     if isinstance(v, Fraction):
         return z3.Q(v.numerator, v.denominator)
@@ -462,22 +465,32 @@ def rmul(a, b):
     return MUL(a, b)
 
 
+def _defer(o):
+    return hasattr(o, 'store') or hasattr(o, '_get')   # symbolic arrays handle mixed arithmetic themselves
+
+
 class SReal:
     def __init__(self, z):
         self.z = rv(z) if not isinstance(z, z3.ExprRef) else (z3.ToReal(z) if z.sort() == z3.IntSort() else z)
 
     def __add__(s, o):
+        if _defer(o):
+            return NotImplemented
         return SReal(s.z + rv(o))
 
     __radd__ = __add__
 
     def __sub__(s, o):
+        if _defer(o):
+            return NotImplemented
         return SReal(s.z - rv(o))
 
     def __rsub__(s, o):
         return SReal(rv(o) - s.z)
 
     def __mul__(s, o):
+        if _defer(o):
+            return NotImplemented
         return SReal(rmul(s.z, rv(o)))
 
     __rmul__ = __mul__
